@@ -263,6 +263,17 @@ def run_case(case, cl=None):
                         cl.add("timeout_raised_instead_of_waiting")
                         fw.release(gate)
                         return
+                    if "r" in box and pending_alarm is not None and box["r"][0] == "exc" \
+                            and isinstance(box["r"][1], DeviceError) \
+                            and pending_alarm.strip() in str(box["r"][1]):
+                        # the unsolicited error line of the previous statement was
+                        # read only after this statement had gone out: it surfaces
+                        # here, once, which is what the property asks
+                        cl.add("unsolicited_error_surfaced_while_next_statement_pending")
+                        fw.release(gate)
+                        pending_alarm = behaviours[txt]["after"][0] if behaviours[txt].get("after") else None
+                        results.append("exc")
+                        continue
                     if "r" in box:
                         raise Violation(
                             f"write({txt!r}) returned ({box['r'][0]}) while the device was "
